@@ -15,9 +15,12 @@ VERIF = os.path.dirname(os.path.dirname(os.path.abspath(__file__)))
 REPO = os.environ.get("VERIF_REPO", "/repo")
 SPECS = os.path.join(VERIF, "specs")
 HARNESS = os.path.join(VERIF, "harness")
-BUILD = os.path.join(VERIF, "build")
-REPLAYS = os.path.join(VERIF, "replays")
-EVIDENCE = os.path.join(VERIF, "evidence")
+# runs against a scratch copy of the library (VERIF_REPO set: seeded changes, mutants) get their own scratch
+# directories so that they neither disturb a concurrent real run nor overwrite the evidence of the real tree
+_ALT = "" if os.path.realpath(REPO) == "/repo" else "_" + hashlib.sha1(os.path.realpath(REPO).encode()).hexdigest()[:8]
+BUILD = os.path.join(VERIF, "build" + _ALT)
+REPLAYS = os.path.join(VERIF, "replays") if not _ALT else os.path.join(BUILD, "replays")
+EVIDENCE = os.path.join(VERIF, "evidence") if not _ALT else os.path.join(BUILD, "evidence")
 NPROC = min(16, os.cpu_count() or 4)
 CXX = os.environ.get("VERIF_CXX", "g++")
 TLC_CP = "/opt/veriftools/tla/tla2tools.jar:/opt/veriftools/tla/CommunityModules-deps.jar"
